@@ -225,4 +225,84 @@ theorem pack_unique (cap : Nat) (xs : List UInt8) (k : Nat) (hk : k ≤ xs.lengt
     omega
   · exact pack_largest' cap xs k hk hfit
 
+/-! ### progress and `blocks` -/
+
+theorem rleLen_singleton (x : UInt8) : rleLen [x] = 1 := by
+  simp [rleLen, rle1, encAux, flush]
+
+theorem pack_pos' (cap : Nat) (hcap : 1 ≤ cap) (xs : List UInt8) (hne : xs ≠ []) :
+    1 ≤ pack cap xs := by
+  cases xs with
+  | nil => exact absurd rfl hne
+  | cons x xs =>
+    apply pack_largest' cap (x :: xs) 1 (by simp)
+    simp only [List.take_succ_cons, List.take_zero, rleLen_singleton]
+    exact hcap
+
+theorem blocks_fuel (cap : Nat) (hcap : 1 ≤ cap) (f1 : Nat) :
+    ∀ (f2 : Nat) (xs : List UInt8), xs.length ≤ f1 → xs.length ≤ f2 →
+      blocks cap f1 xs = blocks cap f2 xs := by
+  induction f1 with
+  | zero =>
+    intro f2 xs h1 _
+    have : xs = [] := List.eq_nil_of_length_eq_zero (by omega)
+    subst this
+    cases f2 <;> simp [blocks]
+  | succ f1 ih =>
+    intro f2 xs h1 h2
+    cases f2 with
+    | zero =>
+      have : xs = [] := List.eq_nil_of_length_eq_zero (by omega)
+      subst this
+      simp [blocks]
+    | succ f2 =>
+      simp only [blocks]
+      split
+      · rfl
+      · rename_i hne
+        have hne' : xs ≠ [] := by simpa using hne
+        have hp := pack_pos' cap hcap xs hne'
+        have hk : ¬ pack cap xs = 0 := by omega
+        simp only [hk, if_false]
+        congr 1
+        apply ih <;> simp only [List.length_drop] <;> omega
+
+/-- unfolding equation of `blocksOf` -/
+theorem blocksOf_eq (cap : Nat) (hcap : 1 ≤ cap) (xs : List UInt8) :
+    blocksOf cap xs =
+      if xs = [] then []
+      else xs.take (pack cap xs) :: blocksOf cap (xs.drop (pack cap xs)) := by
+  unfold blocksOf
+  cases hxs : xs with
+  | nil => simp [blocks]
+  | cons x t =>
+    rw [← hxs]
+    have hne : xs ≠ [] := by rw [hxs]; simp
+    have hl : xs.length = t.length + 1 := by rw [hxs]; simp
+    rw [hl]
+    simp only [blocks, hne, if_false]
+    have hp := pack_pos' cap hcap xs hne
+    have hk : ¬ pack cap xs = 0 := by omega
+    have he : ¬ xs.isEmpty = true := by simpa using hne
+    simp only [he, hk, if_false, Bool.false_eq_true]
+    congr 1
+    apply blocks_fuel cap hcap <;> simp only [List.length_drop] <;> omega
+
+theorem blocksOf_flatten' (cap : Nat) (hcap : 1 ≤ cap) (n : Nat) :
+    ∀ xs : List UInt8, xs.length ≤ n → (blocksOf cap xs).flatten = xs := by
+  induction n with
+  | zero =>
+    intro xs h
+    have : xs = [] := List.eq_nil_of_length_eq_zero (by omega)
+    subst this; simp [blocksOf, blocks]
+  | succ n ih =>
+    intro xs h
+    rw [blocksOf_eq cap hcap]
+    split
+    · rename_i he; simp [he]
+    · rename_i hne
+      have hp := pack_pos' cap hcap xs hne
+      rw [List.flatten_cons, ih _ (by simp only [List.length_drop]; omega),
+        List.take_append_drop]
+
 end LbzVerif.Spec
